@@ -161,6 +161,12 @@ Crosses(P, R) ==
   \E i \in 1..Len(P) : \/ (PosLT(R[1], R[2], P[i][2], P[i][3]) /\ PosLT(P[i][2], P[i][3], R[3], R[4]))
                        \/ (PosLT(R[1], R[2], P[i][4], P[i][5]) /\ PosLT(P[i][4], P[i][5], R[3], R[4]))
 
+(* the enclosing statement is an `elif` of an `elif` (chain of three or more)   *)
+ParentIdx(P, i) ==
+  LET C == {j \in 1..(i - 1) : RInside(P[i], P[j]) /\ P[j][9] = P[i][9] - 1}
+  IN IF i = 0 \/ C = {} THEN 0 ELSE CHOOSE j \in C : \A k \in C : k <= j
+ElifChain(P, i) == i # 0 /\ P[i][1] = "Elif" /\ ParentIdx(P, i) # 0 /\ P[ParentIdx(P, i)][1] = "Elif"
+
 Inline(tx, P, i) == i # 0 /\ ~Blank(SubSeq(Line(tx, P[i][2]), 1, P[i][3]))
 
 Flag(b, name) == IF b THEN name \o "," ELSE ""
@@ -180,10 +186,11 @@ FxPart(tx, new, T, P, i, R, p) ==
   \o Flag(TouchesLeadingKw(T, P, R), "kw")
   \o Flag(Crosses(P, R), "cross")
   \o Flag(Inline(tx, P, i), "inline")
+  \o Flag(ElifChain(P, i), "elifchain")
 
 (* effect on the statement skeleton: is it confined to the enclosing statement? *)
 SameRow(a, b) == a[1] = b[1] /\ a[9] = b[9]
-SkPart(P, N, i, valid) ==
+SkPart(s, e, R, P, N, i, valid) ==
   IF ~valid THEN "invalid"
   ELSE IF i = 0 THEN "top"
   ELSE LET d  == Cardinality({j \in (i + 1)..Len(P) : RInside(P[j], P[i])})   \* descendants follow in pre-order
@@ -191,7 +198,11 @@ SkPart(P, N, i, valid) ==
            na == Len(P) - (i + d)
            nm == Len(N) - nb - na
            pre == \A j \in 1..nb : j <= Len(N) /\ SameRow(N[j], P[j]) /\ N[j][2] = P[j][2] /\ N[j][3] = P[j][3]
-           suf == \A j \in 1..na : Len(N) - na + j >= 1 /\ SameRow(N[Len(N) - na + j], P[i + d + j])
+           dl  == Len(TextOf(e.otext)) - Len(Pre(s))      \* line shift of everything below the edit
+           suf == \A j \in 1..na :
+                    LET a == Len(N) - na + j  b == i + d + j IN
+                    /\ a >= 1 /\ SameRow(N[a], P[b])
+                    /\ (P[b][2] > R[3] => (N[a][2] = P[b][2] + dl /\ N[a][3] = P[b][3]))
            dep == P[i][9]
            mid == [j \in 1..(IF nm > 0 THEN nm ELSE 0) |-> N[nb + j]]
            top == Cardinality({j \in 1..Len(mid) : mid[j][9] = dep})
@@ -209,7 +220,7 @@ ClassOf(s, e) ==
   LET tx == Pre(s)  R == Rect(s, e)  p == Repl(e)  new == New(s, e)
       P == PStm(s)  T == Toks(s)  i == EncIdx(P, R)
   IN s.rootKind \o ":" \o e.call \o "@" \o e.self \o "/in:" \o InPart(P, i, R) \o "/at:" \o AtPart(P, i, R) \o "/tok:" \o TokPart(T, R)
-       \o "/fx:" \o FxPart(tx, new, T, P, i, R, p) \o "/sk:" \o SkPart(P, NStm(e), i, e.valid)
+       \o "/fx:" \o FxPart(tx, new, T, P, i, R, p) \o "/sk:" \o SkPart(s, e, R, P, NStm(e), i, e.valid)
 
 (* ======================================================================== *)
 Init == /\ tid \in 1..Len(Traces)
